@@ -406,6 +406,12 @@ impl<T: Numeric> Atomic<T> {
                     state.stores[self.2].value = T::into_u64(self.0);
 
                     if !std::thread::panicking() {
+                        // The access lasts until here: it is not ordered
+                        // before what another thread acquires from a
+                        // release the closure made.
+                        execution.threads.active_causality_inc();
+
+                        let state = self.1.get_mut(&mut execution.objects);
                         state.track_unsync_mut(&execution.threads);
                     }
                 });
